@@ -1,15 +1,24 @@
 (* C08 Connection lifecycle callbacks fire once and in order.
-   Property theorems only; proofs live in Proofs/SubClose.v.  Model: Model/SubLifecycle.v.
+   Property theorems only; proofs live in Proofs/SubCallbacks.v (connect first and once),
+   Proofs/SubDisc.v (disconnect once, no alive after it; uses the lock-holder invariant
+   Proofs/SubLocks.v), Proofs/SubEnds.v (per-generation end-of-subscription protocol; uses the
+   routing invariant and the presence-owner invariant), Proofs/SubSkip.v, Proofs/SubClose.v.
+   Model: Model/SubLifecycle.v.
 
    Proved for ALL schedules: the connect callback runs at most once and before every other
-   per-connection callback (subscribe, unsubscribe, alive, disconnect), so in particular a
-   disconnect callback only runs if the connect callback ran.  NOT proved (checked by the
-   oracle on the observed callback log of every gated schedule and by the model/implementation
-   correspondence of that log): disconnect at most once, no alive after disconnect,
-   unsubscribe exactly once per established subscription that ended - the last one is refuted
-   for schedules with the wait-gate timeout. *)
+   per-connection callback; the disconnect callback runs at most once, only in the (absorbing)
+   Closed state; no alive callback after the disconnect callback.
+   Proved for every schedule WITHOUT the 5 s wait-gate timeout (suffix _partial = exactly that
+   exclusion): per subscription generation the events commit, delete, leave, unsubscribe occasion
+   form a prefix of  commit . delete . leave? . unsubscribe ; at rest an established subscription
+   that is no longer in c.channels has the complete word, i.e. exactly one unsubscribe occasion;
+   none for attempts that never committed.  The "occasion" is the OnUnsubscribe callback, except
+   while OnConnect has not yet registered the handler (ghost event EvUnsubSkipped: the real code
+   tests the handler for nil), which can only happen before the connect callback.
+   For schedules WITH the timeout "exactly once" is FALSE (C08_unsubscribe_callback_missing_refuted,
+   recorded finding C08-genstamp-after-gate-timeout). *)
 From Coq Require Import List NArith ZArith Bool.
-From Cfg Require Import Model.SubLifecycle Proofs.SubClose Proofs.SubCallbacks.
+From Cfg Require Import Model.SubLifecycle Proofs.SubClose Proofs.SubCallbacks Proofs.SubDisc Proofs.SubEnds Proofs.SubSkip.
 Import ListNotations.
 Open Scope N_scope.
 
@@ -27,6 +36,71 @@ Theorem C08_callbacks_only_after_connect :
     exec sched init = Some s -> In e (trace s) -> is_cb e = true -> In EvConnectCb (trace s).
 Proof. exact callback_needs_connect. Qed.
 Print Assumptions C08_callbacks_only_after_connect.
+
+(* ---- disconnect / alive, ALL schedules ---- *)
+Theorem C08_disconnect_at_most_once :
+  forall sched s,
+    exec sched init = Some s -> (length (filter is_disc (trace s)) <= 1)%nat.
+Proof. exact disconnect_at_most_once. Qed.
+Print Assumptions C08_disconnect_at_most_once.
+
+Theorem C08_disconnect_only_when_closed :
+  forall sched s,
+    exec sched init = Some s -> In EvDisconnectCb (trace s) -> status s = Closed.
+Proof. exact disconnect_only_closed. Qed.
+Print Assumptions C08_disconnect_only_when_closed.
+
+Theorem C08_no_alive_after_disconnect :
+  forall sched s pre post,
+    exec sched init = Some s -> trace s = pre ++ EvDisconnectCb :: post -> ~ In EvAliveCb post.
+Proof. exact no_alive_after_disconnect. Qed.
+Print Assumptions C08_no_alive_after_disconnect.
+
+(* ---- unsubscribe callback, schedules without the wait-gate timeout ---- *)
+(* [proj g tr] = the events of generation g among commit (EvCommit), delete of the committed
+   context (EvDelete, ghost), leave (EvLeave) and unsubscribe occasion (EvUnsubCb / EvUnsubSkipped);
+   [lv c g jl] = [EvLeave c g] if jl else []. *)
+
+(* At rest: an established subscription (its commit is in the trace) whose context is no longer
+   in c.channels has ended with exactly: commit, delete, leave iff join/leave, ONE unsubscribe occasion. *)
+Theorem C08_unsubscribe_once_per_ended_subscription_partial :
+  forall sched s t0 c g jl,
+    no_timeout sched = true -> exec sched init = Some s -> settled s ->
+    In (EvCommit t0 c g jl) (trace s) ->
+    (forall x, lookup c (chans s) = Some x -> c_gen x <> g) ->
+    exists e, (e = EvUnsubCb c g \/ e = EvUnsubSkipped c g) /\
+              proj g (trace s) = [EvCommit t0 c g jl; EvDelete c g] ++ lv c g jl ++ [e].
+Proof. exact ended_subscription_word. Qed.
+Print Assumptions C08_unsubscribe_once_per_ended_subscription_partial.
+
+(* At any time: an unsubscribe occasion of generation g comes after g's commit and delete (and
+   leave, with join/leave) and there is no other one before or after it. *)
+Theorem C08_unsubscribe_unique_and_after_end_partial :
+  forall sched s c g e a b,
+    no_timeout sched = true -> exec sched init = Some s ->
+    e = EvUnsubCb c g \/ e = EvUnsubSkipped c g ->
+    trace s = a ++ e :: b ->
+    exists t0 jl, In (EvCommit t0 c g jl) a /\ In (EvDelete c g) a /\
+                  (jl = true -> In (EvLeave c g) a) /\
+                  (forall e', is_unsub_of g e' = true -> ~ In e' a /\ ~ In e' b).
+Proof. exact unsub_after_delete. Qed.
+Print Assumptions C08_unsubscribe_unique_and_after_end_partial.
+
+(* No unsubscribe callback (nor delete, nor leave) for a generation that was never committed:
+   failed and rolled-back attempts. *)
+Theorem C08_no_unsubscribe_without_commit_partial :
+  forall sched s g,
+    no_timeout sched = true -> exec sched init = Some s ->
+    (forall t0 c jl, ~ In (EvCommit t0 c g jl) (trace s)) -> proj g (trace s) = [].
+Proof. exact never_committed_nothing. Qed.
+Print Assumptions C08_no_unsubscribe_without_commit_partial.
+
+(* The callback is skipped only before the connect callback (handlers not yet registered). ALL schedules. *)
+Theorem C08_unsubscribe_skipped_only_before_connect :
+  forall sched s a b c g,
+    exec sched init = Some s -> trace s = a ++ EvUnsubSkipped c g :: b -> ~ In EvConnectCb a.
+Proof. exact skipped_only_before_connect. Qed.
+Print Assumptions C08_unsubscribe_skipped_only_before_connect.
 
 (* "After node shutdown completes ... no new connection becomes connected": a connection accepted
    before Node.Shutdown whose connect command is processed afterwards is refused since fix 778bc3f1
